@@ -26,5 +26,9 @@ def run(ctx):
     ctx.replay(behs, pre, observe, ordered=True, label="edges")
     w = ctx.gen_walks("MCEmcy", "C15_walk.cfg", num=100 if q else 4000, depth=45)
     ctx.replay(w, pre, observe, ordered=True, label="walks")
+    # error identifiers above the number of error classes (a table of 12 errors)
+    ctx.mc("MCEmcy", "C15H_mc.cfg")
+    bh = ctx.gen_edges("MCEmcy", "C15H_gen.cfg", timeout=2500)
+    ctx.replay(common.thin(bh, 6000, ctx.seed) if q else bh, pre, observe, ordered=True, label="edges_high_ids")
     # EMCY identifier 80h + node id, 1014h with the node-id flag: the same model with the largest node id
     node_check.node_id_variant(ctx, "MCEmcy", "C15", pre, observe, True, (100, 4000), 45, 2500)
